@@ -86,7 +86,21 @@ def current_view_rule(m, run, fi):
 
 
 def block_rules(m, run, fi, op):
-    """op in {'insert', 'remove', 'refine'}"""
+    """op in {'insert', 'remove', 'refine'}: the spelling-independent decision (OPS2) first; the syntactic rules over symbolic sizes corroborate
+    it (and localise a defect when OPS2 fails); the multiplicity guard GD2, which OPS2 does not exercise, always counts"""
+    from . import skel_drivers as _sd
+    n0 = len(run.obs)
+    _sd.ops2(m, run, fi.name, {'insert': 'knot_insertion', 'remove': 'knot_removal', 'refine': 'knot_refinement'}[op], -1 if op == 'remove' else 1)
+    run.floor('OPS2.operation-on-abstract-net', 8, 'curve 1, surface 3, volume 4 requests')
+    sem_ok = all(o.ok for o in run.obs[n0:])
+    with run.corroborating(sem_ok, 'OPS2', rules=('AX3.block-direction', 'LY1.canonical-stride', 'LY3.sizes-in-axis-order', 'LY3.net-grows-on-one-axis',
+                                                   'AX1.helper-call-one-axis', 'LY2.gather', 'LY2.scatter', 'LY2.flatten-order', 'GA1.view-is-current')):
+        _block_rules_syntactic(m, run, fi, op)
+    if op in ('insert', 'remove'):
+        guard_rule(m, run, fi, op)
+
+
+def _block_rules_syntactic(m, run, fi, op):
     current_view_rule(m, run, fi)
     bl = blocks(fi)
     if len(bl) != 6:
@@ -165,7 +179,6 @@ def block_rules(m, run, fi, op):
     if op in ('insert', 'remove'):
         rl.ly3_growth(m, run, fi)
         run.floor('LY3.net-grows-on-one-axis', 13, '2x2 + 3x3 size arguments')
-        guard_rule(m, run, fi, op)
     else:
         refine_sizes(m, run, fi)
     scatter_rule(m, run, fi)
